@@ -94,7 +94,7 @@ fn gen_cfg(name: &str) -> Option<(generic::GenCfg, &'static str)> {
         "c01" => {
             c.name = "c01";
             c.kinds = vec![
-                Read, ReadAt, ReadVectored, ReadN, ReadPool, MultishotRead, Write, WriteArc, WriteExtract, WriteVectored, WriteAll,
+                Read, ReadAt, ReadVectored, ReadN, ReadPool, ReadPoolReuse, MultishotRead, Write, WriteArc, WriteExtract, WriteVectored, WriteAll,
                 WriteAllVectored, Send, SendZc, SendTo, SendToZc, SendVectored, SendVectoredZc, SendAll, Recv, RecvPool, MultishotRecv,
                 RecvVectored, RecvFrom, RecvN, Accept, Connect, Bind, SocketName, GetSockOpt, SetSockOpt, Open, CreateDir, Rename,
                 RemoveFile, Metadata, Pipe, WaitId, ToDirect, MultishotAccept, AcceptNoAddr,
@@ -156,7 +156,7 @@ fn gen_cfg(name: &str) -> Option<(generic::GenCfg, &'static str)> {
         }
         "c08" => {
             c.name = "c08";
-            c.kinds = vec![ReadPool, ReadPool, MultishotRead, RecvPool, MultishotRecv, Read, Write];
+            c.kinds = vec![ReadPool, ReadPool, ReadPoolReuse, MultishotRead, RecvPool, MultishotRecv, Read, Write];
             c.sq_sizes = vec![2, 4, 8];
             c.w_drop = 70;
             c.w_drop_results = 160;
